@@ -7,7 +7,8 @@
    acc = the document every accessor must report.  *)
 EXTENDS IPNSValidate
 CONSTANTS D,        \* number of adversary steps
-          GAttrs    \* attributes of document 1 to enumerate (subset of Attrs)
+          GAttrs,   \* attributes of document 1 to enumerate (subset of Attrs)
+          GDiag     \* TRUE: only the creations with embed = v1compat (quick tier, D = 2)
 VARIABLE hist
 gvars == <<vars, hist>>
 
@@ -31,6 +32,7 @@ ReKinds == {"unknown", "dupJunkFirst", "reorder", "nonminimal", "padToLimit"}
 H(op, f, v, s) == [op |-> op, f |-> f, v |-> v, s |-> s]
 
 GInit == \E d \in Datas, v1, emb \in BOOLEAN, a \in GAttrs :
+            /\ GDiag => (emb = v1)
             /\ r = Fresh(1, d, v1, emb) /\ attr = a
             /\ hist = <<[op |-> "Create", f |-> "", v |-> d, s |-> "", v1 |-> v1, emb |-> emb]>>
 
